@@ -540,6 +540,15 @@ theorem backtrack_ok {I : Inst α} {source : Nat} {s : SState α} (hinv : TreeIn
     (by simp)
   exact ⟨r, hr, by simpa [backtrack] using hrun⟩
 
+/-- explicit negative form of `backtrack_ok`: no error outcome at all (in particular neither
+`panic "backtrack-fuel"` nor `internal`) -/
+theorem backtrack_never_fails {I : Inst α} {source : Nat} {s : SState α}
+    (hinv : TreeInv I source s) {t : Nat} (ht : t = source ∨ (s.sol t).isSome) (k : ErrKind) :
+    backtrack source t s.sol (s.solSize + 1) ≠ .error k := by
+  obtain ⟨route, _, h⟩ := backtrack_ok hinv ht
+  rw [h]
+  exact fun h' => by cases h'
+
 /-- the route of a successful backtrack is the `PathTo` (whatever the fuel) -/
 theorem backtrackAux_sound {source : Nat} {sol : Nat → Option (Branch α)} :
     ∀ (fuel v : Nat) (visited : List Nat) (acc out : List (Branch α)),
